@@ -175,20 +175,20 @@ func exits(chain []string) []c14.Exit {
 	return ex
 }
 
-func run(c *core.Ctx) error {
+// Corpus builds the C15 program family. depth: chains enumerated completely; nDeeper: sampled one deeper.
+func Corpus(c *core.Ctx, depth, nDeeper, firstID int) []M {
 	var progs []M
-	id := 0
+	id := firstID - 1
 	for k := 0; k < 3; k++ {
 		id++
 		progs = append(progs, localsFromCalls(id, k))
 	}
-	depth := c.Pick(1, 2)
 	var all [][]string
 	for d := 1; d <= depth; d++ {
 		all = append(all, chains(d)...)
 	}
 	deeper := chains(depth + 1)
-	for _, i := range c.SampleIdx(len(deeper), c.Pick(60, 600)) {
+	for _, i := range c.SampleIdx(len(deeper), nDeeper) {
 		all = append(all, deeper[i])
 	}
 	for _, ch := range all {
@@ -204,9 +204,15 @@ func run(c *core.Ctx) error {
 			}
 		}
 	}
+	return progs
+}
+
+func run(c *core.Ctx) error {
+	depth := c.Pick(1, 2)
+	progs := Corpus(c, depth, c.Pick(40, 600), 1)
 	c.Logf("instance: %d programs (plain/generator/async wrappings and yielding generators over chains to depth %d + sampled deeper)", len(progs), depth)
 	MaxSteps = 6000
-	// a private thread pool per run; pool sizes 1..3 (the settlement protocol itself is C16's)
+	// a private thread pool per run; pool sizes 1 and 3 (the settlement protocol itself is C16's)
 	for _, pool := range []int{1, 3} {
 		sub := progs
 		if pool != 1 && !c.Thorough() {
